@@ -30,6 +30,19 @@ CHECKS['C16'] = dict(
     technique="Coq proof (induction over the loop, lia, finite sweeps lifted by range_check_sound) + function- and compile-level correspondence",
     design="6.C16")
 
+CHECKS['C05'] = dict(
+    text="Coq theorems by structural induction over the CNL condition (any nesting depth) and for every trace and state: the body of the "
+         "compiled rule, as telingo reads its printed form, is true exactly where the condition read as LTL with past is true "
+         "(C05_formula_correct_partial, C05_constraint_correct_partial; guards: reading defined, and the compiled formula free of the "
+         "three recorded printing defects, whose failure is exhibited by _refuted lemmas and KNOWN_FINDINGS). Connective/constant/symbol "
+         "tables and the Operators enum are regenerated from /repo. Tie: the model re-renders each sentence and predicts the body text "
+         "byte for byte; oracle: telingo on ALL traces up to length 3 (quick) / 4 (thorough) of the implementation's rule vs the reading; "
+         "the same observations validate the Coq semantics of telingo's operators.",
+    note="Trusted: Coq kernel; telingo 2.1 as external semantics (its own ';>' / '<;' deviate from F & >G for non-atomic operands: there the "
+         "model's semantics is compared with the reading instead); Lark's parse of rendered sentences; hand model of telingo_operation (correspondence-checked).",
+    technique="Coq proof (induction on the formula; finite case sweep per level) + exact-text correspondence + exhaustive small-trace telingo oracle",
+    design="6.C05")
+
 NOT_YET = {}
 
 
